@@ -563,6 +563,8 @@ class Client:
 
     async def _reader(self):
         while True:
+            while getattr(self, "paused", False):      # a slow reader: stops reading for a while
+                await asyncio.sleep(0.005)
             msg = await self.conn.read_message()
             if msg is None:
                 self.closed.set()
@@ -2090,6 +2092,105 @@ def lifecycle_monitors(scn, obs):
     return bad
 
 
+def run_bulk(rng, n_big_tracks, burst, burst_tracks):
+    """Directed scenario, in every run: large payloads and a burst, to an ordinary client and to
+    a slow reader (it stops reading during the burst), on the unmodified IO loop.  Events:
+    small, one playlist_changed of several MiB, small, a burst of medium playlist_changed
+    events, small.  Every connected client must receive every event exactly once, in order."""
+    from mopidy.models import Playlist, Track
+
+    rig = Rig()
+    events, sizes = [], []
+    try:
+        clients = {}
+        for cid in range(3):
+            c = Client(rig, cid)
+            c.connect()
+            clients[cid] = c
+        slow = clients[1]
+
+        def pl(idx, n):
+            return Playlist(uri=f"dummy:bulk{idx}", name=f"bulk {idx}",
+                            tracks=[Track(uri=f"dummy:t{idx}.{i}", name="n" * 120, length=i) for i in range(n)])
+
+        def emit(name, kw):
+            events.append((name, kw))
+            rig.emit(name, kw)
+
+        emit("volume_changed", {"volume": 1})
+        emit("playlist_changed", {"playlist": pl(1, n_big_tracks)})
+        emit("mute_changed", {"mute": True})
+        rig.barrier_actor()
+        rig.on_loop(lambda: None)
+        slow.paused = True
+        time.sleep(0.05)
+        for k in range(burst):
+            emit("playlist_changed", {"playlist": pl(100 + k, burst_tracks)})
+        emit("seeked", {"time_position": 7})
+        rig.barrier_actor()
+        rig.on_loop(lambda: None)
+        time.sleep(0.1)
+        slow.paused = False
+        escaped = []
+        for cid, c in clients.items():
+            if not c.sync("end", timeout=30):
+                escaped.append(f"client {cid} did not answer the final sync")
+        expected = [canonical(expected_message(n, kw)) for n, kw in events]
+        sizes = [len(e) for e in expected]
+        index = {e: i for i, e in enumerate(expected)}
+        logs = {}
+        for cid, c in clients.items():
+            dec = []
+            for raw in c.log:
+                try:
+                    dec.append(index.get(canonical(json.loads(raw)), -1))
+                except Exception:  # noqa: BLE001
+                    dec.append(-2)
+            logs[cid] = dec
+        alive = rig.ref.is_alive()
+        for c in clients.values():
+            try:
+                c.disconnect()
+            except Exception as e:  # noqa: BLE001
+                escaped.append(f"cleanup: {e!r}")
+    finally:
+        rig.stop()
+    return {"logs": logs, "n_events": len(events), "sizes": sizes, "escaped": escaped, "frontend_alive": alive,
+            "names": [n for n, _ in events]}
+
+
+def bulk_stage(chk):
+    variants = [(12000, 80, 120)] if chk.tier == "quick" else [(12000, 80, 120), (3000, 150, 60), (16000, 20, 400)]
+    ok = True
+    for n_big, burst, burst_tracks in variants:
+        scn = {"big_playlist_tracks": n_big, "burst": burst, "burst_playlist_tracks": burst_tracks,
+               "clients": "0 ordinary, 1 slow reader (pauses during the burst), 2 ordinary"}
+        try:
+            obs = run_bulk(chk.rng, n_big, burst, burst_tracks)
+        except Exception as e:  # noqa: BLE001
+            ok = False
+            chk.corr_failure("bulk", {"scenario": scn}, f"scenario could not be run: {e!r}")
+            continue
+        chk.count(1, nontrivial_key=("bulk", n_big, burst, burst_tracks))
+        chk.dist(f"bulk:largest-message-MiB={max(obs['sizes']) // (1024 * 1024)}")
+        chk.dist(f"bulk:burst-total-MiB={sum(obs['sizes'][3:-1]) // (1024 * 1024)}")
+        for e in obs["escaped"]:
+            chk.monitor_failure("T2_failure_contained", {"monitor": "T2_failure_contained", "mode": "bulk"}, e, {"scenario": scn})
+        must = list(range(obs["n_events"]))
+        for c, log in obs["logs"].items():
+            if log != must:
+                missing = [i for i in must if i not in log]
+                extra = "duplicate, unknown or out-of-order delivery" if (sorted(set(log)) != sorted(log) or any(i < 0 for i in log) or log != sorted(log)) else ""
+                chk.monitor_failure(
+                    "T1_event_reaches_every_client", {"monitor": "T1_event_reaches_every_client", "mode": "bulk"},
+                    f"client {c} ({'slow reader' if c == 1 else 'ordinary reader'}) stayed connected but did not receive events "
+                    f"{missing[:8]}{'...' if len(missing) > 8 else ''} ({[obs['names'][i] for i in missing[:3]]}, canonical JSON sizes "
+                    f"{[obs['sizes'][i] for i in missing[:3]]} bytes) {extra}",
+                    {"scenario": scn, "client": c, "received": len(log), "emitted": obs["n_events"], "missing": missing[:20],
+                     "frontend_alive": obs["frontend_alive"]})
+    chk.obligation("corr:bulk", "correspondence", ok)
+
+
 def lifecycle_stage(chk):
     scns = list(LIFECYCLE_CORPUS) + [gen_lifecycle(chk.rng) for _ in range(12 if chk.tier == "quick" else 150)]
     ok = True
@@ -2227,6 +2328,7 @@ def run(chk):
         message_stage(chk)
         rig.stop()
         lifecycle_stage(chk)     # builds and stops its own frontends
+        bulk_stage(chk)          # large payloads, a burst, a slow reader (own frontend)
         rig = Rig()
         rigbox = [rig]
         try:
